@@ -39,6 +39,7 @@ def readOp (j : Json) : R ReadOp := do
   match ← str (← nth l 0) with
   | "bool" => pure .bool
   | "len" => pure .len
+  | "view" => pure .view
   | "get" => pure (.get (← nat (← nth l 1)))
   | "contains" => pure (.contains (← nat (← nth l 1)))
   | "countsPinned" => pure (.countsPinned (← nat (← nth l 1)) (← listOf nat (← nth l 2)))
